@@ -220,3 +220,18 @@ Theorem qcopy_spec full x :
   qcopy false x = (fst (fst x), None, false) /\
   qcopy full (qcopy full x) = qcopy full x /\ qcopy false (qcopy true x) = qcopy false x.
 Proof. destruct x as [[q st] mk]. destruct full, q, st as [[]|], mk; repeat split; reflexivity. Qed.
+
+(* ---------------------------------------------------------------------------------------------------------------- *)
+(* known finding smarts-stereo-branch-mark-inverted.  QueryIsomorphism.get_mapping reads QueryBond.stereo relative to the FIRST
+   bonded neighbour of each end of the double bond, so two spellings of one configuration must get one flag.  They do not:
+   'F/C(Cl)=C/F' and 'F/C(/Cl)=C/F' both say "F and F on opposite sides" (the mark on the Cl branch is implied by the one on F),
+   yet the second gets the flag of the LAST written mark (Cl), i.e. the opposite one *)
+Definition double_bond_flag (s : string) : option (option bool) :=
+  match smarts_full s with
+  | Ok (_, bonds) => match filter (fun x => zmem 2 (qb_ord (sb_q x))) bonds with [x] => Some (sb_stereo x) | _ => None end
+  | Err _ => None
+  end.
+Theorem stereo_flag_spelling_independent_refuted :
+  double_bond_flag "F/C(Cl)=C/F" = Some (Some false) /\ double_bond_flag "F/C(/Cl)=C/F" = Some (Some true) /\
+  double_bond_flag "F/C=C/F" = Some (Some false) /\ double_bond_flag "F/C=C\F" = Some (Some true).
+Proof. vm_compute. repeat split; reflexivity. Qed.
